@@ -1,5 +1,5 @@
-import Ogorek.Props.C19
-import Ogorek.Encoder
+import Ogorek.Lemmas.RoundTrip
+import Ogorek.Props.C04
 
 /-!
   C03 — Encode then Decode is the identity on canonical values, a normal form otherwise.
@@ -10,35 +10,83 @@ namespace Ogorek
     the decoder reads the same int64 back and stops exactly at the end of it. -/
 theorem C03_int (c : ECfg) (i : Int) (hi : inInt64 i = true) (t : Bytes) :
     (encodeInt c i).err = none ∧
-    parseInsn ((encodeInt c i).chunks.flatten ++ t) = .ok (.pushInt i, t) := by
-  unfold encodeInt
-  split
-  · rename_i h
-    obtain ⟨_, h0, h1⟩ := h
-    refine ⟨rfl, ?_⟩
-    have hb : (UInt8.ofNat i.toNat).toNat = i.toNat := by simp [UInt8.toNat_ofNat']; omega
-    simp [emit, parseInsn, Rd.bind, readByte, parseArg_75, Rd.map, Rd.pure, hb]
-    omega
-  · split
-    · rename_i h
-      obtain ⟨_, h0, h1⟩ := h
-      refine ⟨rfl, ?_⟩
-      have hlo : (UInt8.ofNat (i.toNat % 256)).toNat = i.toNat % 256 := by simp [UInt8.toNat_ofNat']
-      have hhi : (UInt8.ofNat (i.toNat / 256)).toNat = i.toNat / 256 := by simp [UInt8.toNat_ofNat']; omega
-      simp [emit, parseInsn, Rd.bind, readByte, parseArg_77, Rd.map, Rd.pure, readFull, leNat, hlo, hhi]
-      omega
-    · split
-      · rename_i h
-        obtain ⟨_, h0, h1⟩ := h
-        refine ⟨rfl, ?_⟩
-        simp only [emit, List.flatten_cons, List.flatten_nil, List.append_nil, le4]
-        simp only [parseInsn, Rd.bind, readByte, List.cons_append, parseArg_74, Rd.map,
-          readFull_exact 4 _ t (natLE_length 4 _), Rd.pure, toSigned_ofSigned_32 i h0 h1]
-      · refine ⟨rfl, ?_⟩
-        have : ((emit (73 :: fmtInt i ++ [10])).chunks.flatten ++ t) = 73 :: (fmtInt i ++ 10 :: t) := by
-          simp [emit]
-        rw [this]
-        simp [parseInsn, Rd.bind, readByte, parseArg_73, Rd.mapE, readLine_line _ _ (fmtInt_no_lf i),
-          parseIntArg_fmtInt, Rd.pure, hi]
+    parseInsn ((encodeInt c i).chunks.flatten ++ t) = .ok (.pushInt i, t) := encodeInt_parse c i hi t
+
+/-- The STOP step of the loop. -/
+theorem decodeLoop_stop (mc : MCfg) (hook : Hook) (f insn : Nat) (st : DState) (r : GoVal) (s : List GoVal) (t : Bytes)
+    (hs : st.stack = r :: s) (hm : isMark r = false) :
+    decodeLoop mc hook (f + 1) insn st (46 :: t) = (.ok r, { st with stack := s }, t) := by
+  rw [decodeLoop]
+  simp [readByte, parseArg_46, Rd.pure, popUser, pop, hs, userOK_nm hm, bind, Except.bind, pure, Except.pure]
+
+/-- **C03 (round trip, protocols 1–5).** For every canonical value `v` without maps — None, bool,
+    int64, *big.Int, float64, string, ByteString, Bytes, []byte, Class, and lists, Tuples, Calls and
+    Refs of these nested to any depth — every protocol 1..5 and both StrictUnicode settings (the same
+    on both sides): if `Encode` returns no error, then `Decode` of exactly the bytes it wrote succeeds,
+    consumes all of them, and returns a value that represents `v` (`Rep`: identical in type and content;
+    ByteString comes back as string when StrictUnicode is off; big ints are fresh objects).  The decoder
+    may start from any state (memo and heap left by earlier pickles of the stream). -/
+theorem C03_roundtrip_bin (ip : IsPrint) (c : ECfg) (cfg : Cfg) (v : GoVal)
+    (hp1 : 1 ≤ c.proto) (hp5 : c.proto ≤ 5) (hsu : cfg.su = c.su)
+    (hc : canon v = true) (he : (encodeTop ip c none v).err = none) (st0 : DState) :
+    ∃ r st', decode (goCfg cfg) none st0 (flat (encodeTop ip c none v)) = (.ok r, st', []) ∧
+      Rep (goCfg cfg) st'.heap r v := by
+  have hrange : (0 ≤ c.proto ∧ c.proto ≤ 5) := ⟨by omega, hp5⟩
+  have hdr_err : (if c.proto ≥ 2 then emit [0x80, UInt8.ofNat c.proto.toNat] else Out.nil).err = none := by
+    split <;> rfl
+  have etop : encodeTop ip c none v =
+      (if c.proto ≥ 2 then emit [0x80, UInt8.ofNat c.proto.toNat] else Out.nil) +> enc ip c v +> emit [46] := by
+    simp [encodeTop, hrange]
+  rw [etop] at he ⊢
+  obtain ⟨h12, _⟩ := seq_err_none he
+  obtain ⟨_, hev⟩ := seq_err_none h12
+  obtain ⟨is, hpar, hrun⟩ := rt_val (mc := goCfg cfg) ip (by omega) hsu rfl v hc hev
+  rw [flat_seq _ _ h12, flat_seq _ _ hdr_err, flat_emit]
+  unfold decode
+  by_cases h2 : c.proto ≥ 2
+  · -- PROTO header first
+    simp only [h2, if_true, flat_emit]
+    have hpb : (UInt8.ofNat c.proto.toNat).toNat = c.proto.toNat := by simp [UInt8.toNat_ofNat']; omega
+    let st1 : DState := { st0 with stack := [], proto := c.proto.toNat }
+    have hpo : ProtoOK c st1 := by
+      simp only [ProtoOK, pybuiltinModule, pybuiltinModuleE, st1]
+      have : (c.proto.toNat ≤ 2) ↔ (c.proto ≤ 2) := by omega
+      simp [this]
+    obtain ⟨st2, e2, _, r, hs2, hrep⟩ := hrun 1 st1 hpo
+    let F := ([0x80, UInt8.ofNat c.proto.toNat] ++ flat (enc ip c v) ++ [46]).length
+    have hfuel := decodeLoop_fuel (goCfg cfg) none
+      (([0x80, UInt8.ofNat c.proto.toNat] ++ flat (enc ip c v) ++ [46]).length + 1)
+      ((F + 1 + is.length) + 1) 0 { st0 with stack := [], proto := 0 }
+      ([0x80, UInt8.ofNat c.proto.toNat] ++ flat (enc ip c v) ++ [46]) (by omega)
+      (by simp [F]; omega)
+    rw [hfuel]
+    have hstep := decodeLoop_step (goCfg cfg) none (F + 1 + is.length) 0 { st0 with stack := [], proto := 0 } st1 0x80
+      (UInt8.ofNat c.proto.toNat :: (flat (enc ip c v) ++ [46])) (flat (enc ip c v) ++ [46]) (.proto c.proto.toNat)
+      (by simp [parseArg_128, Rd.map, Rd.bind, readByte, Rd.pure, hpb]) rfl
+      (by
+        have : c.proto.toNat ≤ 5 := by omega
+        simp [exec, this, st1])
+    have e0 : ([0x80, UInt8.ofNat c.proto.toNat] ++ flat (enc ip c v) ++ [46]) =
+        0x80 :: (UInt8.ofNat c.proto.toNat :: (flat (enc ip c v) ++ [46])) := by simp
+    rw [e0, hstep, decodeLoop_run (goCfg cfg) none is (flat (enc ip c v)) (0 + 1) st1 st2 [46] (F + 1) hpar e2]
+    rw [decodeLoop_stop (goCfg cfg) none F _ st2 r st1.stack [] hs2 hrep.not_mark]
+    exact ⟨r, _, rfl, hrep⟩
+  · -- protocol 1: no header
+    simp only [h2, if_false, flat, Out.nil, List.flatten_nil, List.nil_append]
+    have hpo : ProtoOK c { st0 with stack := [], proto := 0 } := by
+      simp only [ProtoOK, pybuiltinModule, pybuiltinModuleE]
+      have : c.proto ≤ 2 := by omega
+      simp [this]
+    obtain ⟨st2, e2, _, r, hs2, hrep⟩ := hrun 0 _ hpo
+    let F := ((enc ip c v).chunks.flatten ++ [46]).length
+    have hfuel := decodeLoop_fuel (goCfg cfg) none
+      (((enc ip c v).chunks.flatten ++ [46]).length + 1) ((F + 1) + is.length) 0 { st0 with stack := [], proto := 0 }
+      ((enc ip c v).chunks.flatten ++ [46]) (by omega)
+      (by simp [F]; omega)
+    rw [hfuel]
+    have hrun' := decodeLoop_run (goCfg cfg) none is (flat (enc ip c v)) 0 _ st2 [46] (F + 1) hpar e2
+    simp only [flat] at hrun'
+    rw [hrun', decodeLoop_stop (goCfg cfg) none F _ st2 r [] [] hs2 hrep.not_mark]
+    exact ⟨r, _, rfl, hrep⟩
 
 end Ogorek
